@@ -1,12 +1,12 @@
 SPECIFICATION Spec
 INVARIANT AlgoExact
 INVARIANT AlgoRaises
-INVARIANT AlgoSoundPrefix
 PROPERTY Termination
 CONSTANTS
   Wide = FALSE
   BatchSize = 16
-  NInst = 30
+  NInst = 24
   StrLen = 3
-  MaxModels = 2
-  MaxInsts = 12
+  MaxModels = 1
+  MaxSpecial = 1
+  MaxInsts = 6
